@@ -39,6 +39,25 @@ const RESPONSES: [(&str, bool, bool, bool, bool); 7] = [
     ("ocsp_good_short.der", false, true, true, false),
 ];
 
+/// C40 on the revocation paths: the synchronous and the asynchronous validation of the same
+/// asset against the same peer agree on state and codes.
+fn parity(out: &mut RunOut, sub: u64, tag: &str, a: &Result<Result<Report, String>, String>, b: &Result<Result<Report, String>, String>) {
+    if let (Ok(a), Ok(b)) = (a, b) {
+        let same = match (a, b) {
+            (Ok(x), Ok(y)) => x.state == y.state && x.codes == y.codes,
+            (Err(x), Err(y)) => x == y,
+            _ => false,
+        };
+        if same {
+            out.probe("sync-async-agree");
+        } else {
+            let kind = tag.split(':').take(2).collect::<Vec<_>>().join(":");
+            out.violate(sub, &format!("@C40:sync-async-differ:ocsp:{kind}"), "C40 synchronous and asynchronous validation agree",
+                json!({"scenario": tag, "sync": a.as_ref().map(|r| r.brief()).map_err(|e| e.clone()), "async": b.as_ref().map(|r| r.brief()).map_err(|e| e.clone())}));
+        }
+    }
+}
+
 impl Property for C37 {
     fn meta(&self) -> Meta {
         Meta {
@@ -131,7 +150,9 @@ impl Property for C37 {
                 };
                 c2pa::verif::set_clock(Some(clock));
                 let r2 = sdk::guarded(|| sdk::read_plain(&ctx0, fmt.mime(), &signed));
+                let r3 = sdk::guarded(|| sdk::read_plain_async(&ctx0, fmt.mime(), &signed));
                 c2pa::verif::set_clock(None);
+                parity(&mut out, sub, &tag, &r2, &r3);
                 got = match r2 {
                     Ok(g) => g,
                     Err(p) => {
@@ -171,8 +192,12 @@ impl Property for C37 {
                     Err(e) => Err(err_kind(&e)),
                 });
                 let log = ops::cb_take_log();
-                c2pa::verif::set_clock(None);
                 wire = net::log_len();
+                // the asynchronous form against the same peer (C40)
+                let ctx2 = Arc::new(sdk::make_context(&settings(true)));
+                let r3 = sdk::guarded(|| sdk::read_plain_async(&ctx2, fmt.mime(), &plain));
+                c2pa::verif::set_clock(None);
+                parity(&mut out, sub, &tag, &r2, &r3);
                 if cancel {
                     if let Some(k) = log.iter().position(|l| l.0 == "FetchingOCSP") {
                         // re-run cancelling exactly there
